@@ -18,7 +18,9 @@ import (
 	"testing"
 
 	"github.com/snapcore/snapd/dirs"
+	"github.com/snapcore/snapd/overlord"
 	"github.com/snapcore/snapd/overlord/auth"
+	"github.com/snapcore/snapd/overlord/hookstate"
 	"github.com/snapcore/snapd/overlord/state"
 	"github.com/snapcore/snapd/polkit"
 	"github.com/snapcore/snapd/zzverif/vh"
@@ -41,7 +43,7 @@ type c26Conn struct {
 }
 
 type c26In struct {
-	Kind string `json:"kind"` // serve | table | cred | parse | attach
+	Kind string `json:"kind"` // serve | table | cred | parse | attach | attachparse | viewable | snapctl
 	// serve
 	Ep        int               `json:"ep,omitempty"`
 	Path      string            `json:"path,omitempty"` // informational; the driver reads it from api[Ep]
@@ -61,9 +63,13 @@ type c26In struct {
 	Pid    int32  `json:"cpid,omitempty"`
 	Uid    uint32 `json:"cuid,omitempty"`
 	Socket string `json:"csocket,omitempty"`
-	// parse / attach
+	// parse / attach / attachparse
 	S     string `json:"s,omitempty"`
 	Iface string `json:"iface,omitempty"`
+	// viewable: noticeTypesViewableBySnap(types, request with RemoteAddr = Remote); Creds / Pre say what was forged
+	Types []string `json:"types,omitempty"`
+	// snapctl: POST /v2/snapctl with these args through the real ServeHTTP and the real runSnapctl (ctlcmd.Run recorded)
+	Args []string `json:"args,omitempty"`
 }
 
 type c26Obs struct {
@@ -424,6 +430,52 @@ func c26Gen(r *vh.Rand, tier string, n int) []c26In {
 		ins = append(ins, c26In{Kind: "parse", S: s})
 		ins = append(ins, c26In{Kind: "attach", S: s, Iface: r.Pick([]string{"a", "b", "snap-themes-control", "network", "", "a&b", "x;y"})})
 	}
+	// attach then parse back (both tiers, exhaustive over a small scope): every kind of accepted address x every kind of
+	// interface string, including the witnesses of C26_roundtrip_unguarded_refuted (separators inside the value)
+	base := c26RemoteStr(42, 1000, dirs.SnapSocket)
+	bases := []string{base, base + "iface=a;", base + "iface=a&b;", base + "iface=;", base + "iface=&;", base + "iface=b&a&snap-themes-control;",
+		c26RemoteStr(42, 1000, "x;iface=y"), c26RemoteStr(42, 1000, "a;b"), c26RemoteStr(1, 0, ""), "garbage", ""}
+	for _, b := range bases {
+		for _, i := range []string{"a", "b", "c", "snap-themes-control", "", "a&b", "&", "x;y", "a;iface=b", ";"} {
+			ins = append(ins, c26In{Kind: "attachparse", S: b, Iface: i})
+			ins = append(ins, c26In{Kind: "attachparse", S: ucrednetAttachInterface(b, i), Iface: i}) // the second attach
+		}
+	}
+	// noticeTypesViewableBySnap: every socket kind x what is attached x requested types (all lists of length <= 2 over the
+	// six notice types and an unknown one, plus the three refresh-observe types together)
+	ntypes := []string{"change-update", "warning", "refresh-inhibit", "snap-run-inhibit", "interfaces-requests-prompt", "interfaces-requests-rule-update", "bogus"}
+	typeLists := [][]string{nil, {"change-update", "refresh-inhibit", "snap-run-inhibit"}, {"interfaces-requests-prompt", "interfaces-requests-rule-update", "change-update"}}
+	for i, a := range ntypes {
+		typeLists = append(typeLists, []string{a})
+		for _, b := range ntypes[i+1:] {
+			typeLists = append(typeLists, []string{a, b})
+		}
+	}
+	attached := [][]string{nil, {"snap-refresh-observe"}, {"snap-interfaces-requests-control"}, {"snap-refresh-observe", "snap-interfaces-requests-control"},
+		{"snap-themes-control"}, {"network", "snap-refresh-observ"}, {"snap-refresh-observe-x", ""}}
+	for _, sock := range []string{dirs.SnapdSocket, dirs.SnapSocket, "/run/other.socket"} {
+		for _, pre := range attached {
+			rm := c26RemoteStr(42, 1000, sock)
+			if pre != nil {
+				rm += "iface=" + strings.Join(pre, "&") + ";"
+			}
+			for _, tl := range typeLists {
+				ins = append(ins, c26In{Kind: "viewable", Remote: rm, Creds: &c26Cred{42, 1000, sock}, Pre: pre, Types: tl})
+			}
+		}
+	}
+	// snapctl: whose uid reaches ctlcmd.Run -- every credentialed / credential-less / unusual address
+	for _, rm := range all {
+		ins = append(ins, c26In{Kind: "snapctl", Remote: rm.s, Creds: rm.creds, Args: []string{"get", "foo"}})
+	}
+	for _, uid := range []uint64{0, 1, 1000, 65534, 4294967294} {
+		ins = append(ins, c26In{Kind: "snapctl", Remote: c26RemoteStr(77, uid, dirs.SnapSocket), Creds: &c26Cred{77, uid, dirs.SnapSocket}, Args: []string{"set", "a=b"}})
+	}
+	for _, rm := range []string{"", "pid=;uid=;socket=;", c26RemoteStr(0, 0, dirs.SnapdSocket)} {
+		for _, tl := range typeLists[:6] {
+			ins = append(ins, c26In{Kind: "viewable", Remote: rm, Types: tl})
+		}
+	}
 	return ins
 }
 
@@ -725,12 +777,77 @@ func c26Exec(in c26In) vh.Out {
 			tag = "parse-accepted"
 		}
 		return vh.Out{Observed: c26Obs{HCred: fmt.Sprint(back), HIfaces: ifs}, Coq: coq, NonTrivial: back != nil, Tags: []string{tag}}
+	case "snapctl":
+		return c26Snapctl(in)
+	case "attachparse":
+		out := ucrednetAttachInterface(in.S, in.Iface)
+		back, ifs, _ := ucrednetGetWithInterfaces(out)
+		coq := "(CAttachParse " + vh.CoqBytes(in.S) + " " + vh.CoqBytes(in.Iface) + " " + vh.CoqBytes(out) + " " + c26CoqUcred(back) + " " + c26CoqStrs(ifs) + ")"
+		tag := "attachparse-lost"
+		if back != nil {
+			tag = "attachparse-kept"
+		}
+		return vh.Out{Observed: c26Obs{Out: out, HCred: fmt.Sprint(back), HIfaces: ifs}, Coq: coq, NonTrivial: back != nil, Tags: []string{tag}}
+	case "viewable":
+		req := httptest.NewRequest("GET", "http://localhost/v2/notices", nil)
+		req.RemoteAddr = in.Remote
+		var types []state.NoticeType
+		for _, t := range in.Types {
+			types = append(types, state.NoticeType(t))
+		}
+		ok := noticeTypesViewableBySnap(types, req)
+		coq := "(CViewable " + c26CoqStrs(in.Types) + " " + vh.CoqBytes(in.Remote) + " " + c26CoqCred(in.Creds) + " " + c26CoqStrs(in.Pre) + " " + vh.CoqBool(ok) + ")"
+		tag := "viewable-no"
+		if ok {
+			tag = "viewable-yes"
+		}
+		return vh.Out{Observed: c26Obs{Out: fmt.Sprint(ok)}, Coq: coq, NonTrivial: ok && in.Creds != nil && in.Creds.Socket != dirs.SnapdSocket, Tags: []string{tag}}
 	case "attach":
 		out := ucrednetAttachInterface(in.S, in.Iface)
 		coq := "(CAttach " + vh.CoqBytes(in.S) + " " + vh.CoqBytes(in.Iface) + " " + vh.CoqBytes(out) + ")"
 		return vh.Out{Observed: c26Obs{Out: out}, Coq: coq, NonTrivial: out != in.S, Tags: []string{"attach"}}
 	}
 	panic("unknown kind " + in.Kind)
+}
+
+var c26Overlord *overlord.Overlord
+
+// the real snapctlCmd (real checker, real runSnapctl) behind the real ServeHTTP; only ctlcmd.Run is replaced, at the
+// package's own mock point, by a recorder
+func c26Snapctl(in c26In) vh.Out {
+	if c26Overlord == nil {
+		o := overlord.Mock()
+		hm, err := hookstate.Manager(o.State(), o.TaskRunner())
+		if err != nil {
+			panic(err)
+		}
+		o.AddManager(hm)
+		c26Overlord = o
+	}
+	d := &Daemon{state: c26Overlord.State(), overlord: c26Overlord}
+	cmd := &Command{Path: snapctlCmd.Path, POST: snapctlCmd.POST, WriteAccess: snapctlCmd.WriteAccess, ReadAccess: snapctlCmd.ReadAccess, d: d}
+	called, uid := false, uint32(0)
+	old := ctlcmdRun
+	defer func() { ctlcmdRun = old }()
+	ctlcmdRun = func(ctx *hookstate.Context, args []string, u uint32) ([]byte, []byte, error) {
+		called, uid = true, u
+		return nil, nil, nil
+	}
+	var items []string
+	for _, a := range in.Args {
+		items = append(items, fmt.Sprintf("%q", a))
+	}
+	body := `{"context-id": "", "args": [` + strings.Join(items, ",") + `]}`
+	req := httptest.NewRequest("POST", "http://localhost/v2/snapctl", strings.NewReader(body))
+	req.RemoteAddr = in.Remote
+	rec := httptest.NewRecorder()
+	cmd.ServeHTTP(rec, req)
+	coq := "(CSnapctl " + vh.CoqBytes(in.Remote) + " " + c26CoqCred(in.Creds) + " " + vh.CoqBool(called) + " " + vh.CoqN(uint64(uid)) + ")"
+	tag := "snapctl-refused"
+	if called {
+		tag = "snapctl-run"
+	}
+	return vh.Out{Observed: c26Obs{Out: fmt.Sprint(called, " uid=", uid), Status: rec.Code}, Coq: coq, NonTrivial: called, Tags: []string{tag}}
 }
 
 func TestVerifC26(t *testing.T) { vh.Run(c26Gen, c26Exec) }
